@@ -3,3 +3,5 @@ import PPModel.Mod.LineCol
 import PPModel.Driver.LineCol
 import PPModel.Mod.TrimArity
 import PPModel.Driver.TrimArity
+import PPModel.Mod.ActionGate
+import PPModel.Driver.ActionGate
